@@ -18,7 +18,7 @@ use oal_compiler::spec::Spec;
 use oal_compiler::tree::Tree;
 use oal_model::{locator::Locator, span::Span};
 use std::collections::hash_map::Entry;
-use std::collections::HashMap;
+use std::collections::{HashMap, HashSet};
 use unicode::{position_to_utf8, utf8_range_to_position};
 
 /// A folder in the workspace.
@@ -85,6 +85,8 @@ pub type Diagnostics = HashMap<Locator, Vec<Diagnostic>>;
 pub struct Workspace {
     docs: HashMap<Locator, String>,
     errors: Option<Vec<(Span, String)>>,
+    /// The documents with at least one diagnostic at the last publication.
+    reported: HashSet<Locator>,
 }
 
 impl Workspace {
@@ -195,9 +197,11 @@ impl Workspace {
     /// Reset the workspace errors.
     pub fn diagnostics(&mut self) -> anyhow::Result<Diagnostics> {
         // Make sure diagnostics are reset on all previously opened documents.
+        // This includes documents that are not opened anymore but still carry diagnostics.
         let mut diags = self
             .docs
             .keys()
+            .chain(self.reported.iter())
             .map(|loc| (loc.clone(), Default::default()))
             .collect::<Diagnostics>();
         let errs = self.errors.take().unwrap_or_default();
@@ -213,6 +217,11 @@ impl Workspace {
                 }
             }
         }
+        self.reported = diags
+            .iter()
+            .filter(|(_, d)| !d.is_empty())
+            .map(|(loc, _)| loc.clone())
+            .collect();
         Ok(diags)
     }
 
